@@ -62,7 +62,7 @@ def bf_entries_ok(ents, shift: bool) -> bool:
     return True
 
 
-BITFIELDS_PROVED = False      # SpecSound.ad_sound: flipped together with the Coq definition
+BITFIELDS_PROVED = True       # SpecSound.ad_sound covers BitField over an unsigned primitive (bf_law)
 
 
 def ad_sound(ad, child) -> bool:
